@@ -2,7 +2,7 @@
 # tools/run_all.sh [quick|thorough] [IDs...]  - run checks on /repo, print one line per check, validate evidence
 TIER=${1:-quick}; shift
 IDS=${@:-C01 C02 C03 C04 C05 C06 C07 C08 C09 C10 C11 C12 C13 C14 C15 C16 C17 C18 C19 C20}
-cd /verif
+cd "$(dirname "$0")/.."
 for id in $IDS; do
   s=$(date +%s); out=$(./check $id $TIER 2>&1); rc=$?; e=$(( $(date +%s) - s ))
   echo "$id rc=$rc ${e}s $(echo "$out" | grep -E "^$id " | cut -c1-160)"
